@@ -146,12 +146,29 @@ pub fn exec<K: Kit>(kit: &K, sc: &Scenario) -> Result<(Drv<K>, Res), String> {
     }
 }
 
+/// Like `exec` (planner RNG), but the planner object is first asked to solve before any
+/// `setup` - a refused call - and only then set up and run.
+pub fn exec_after_refused_solve<K: Kit>(kit: &K, sc: &Scenario) -> Result<(Drv<K>, Res), String> {
+    crate::watch::set_case(sc.to_json());
+    run_once_opts(kit, sc, true)
+}
+
 fn run_once_budget<K: Kit>(kit: &K, sc: &Scenario) -> Result<(Drv<K>, Res), String> {
+    run_once_opts(kit, sc, false)
+}
+
+fn run_once_opts<K: Kit>(kit: &K, sc: &Scenario, refused_first: bool) -> Result<(Drv<K>, Res), String> {
     // run_once with the scenario's query budget
     oxmpl::verif::arm(0);
     let build_secs = (sc.prm_samples as f64 - 0.5) * 1e-3;
     let mut d = Drv::new(kit, &sc.params, build_secs).map_err(|r| format!("constructor failed: {}", r.short()))?;
     d.log.borrow_mut().budget = sc.query_budget;
+    if refused_first {
+        let r = d.solve_iters(3);
+        if !matches!(r, Res::Err(_)) {
+            return Err(format!("solve before setup returned {}", r.short()));
+        }
+    }
     let inst = d.install(&sc.problem, SampleMode::PlannerRng)?;
     let r = d.setup(inst);
     if r != Res::Done {
